@@ -6,6 +6,8 @@ package client
 
 import (
 	"bufio"
+	"bytes"
+	"crypto/sha256"
 	"context"
 	"encoding/json"
 	"fmt"
@@ -383,6 +385,19 @@ func (h *rcH) startCall(k int, kind string, key int) {
 	}()
 }
 
+// rcAcceptSigHash: double SHA-256 over session key, the three counts (varints) and the connection hash.
+func rcAcceptSigHash(m *AcceptRegister, h bitcoin.Hash32) bitcoin.Hash32 {
+	var b bytes.Buffer
+	b.Write(m.Key.Bytes())
+	wire.WriteVarInt(&b, 0, m.PushDataCount)
+	wire.WriteVarInt(&b, 0, m.UTXOCount)
+	wire.WriteVarInt(&b, 0, m.MessageCount)
+	b.Write(h[:])
+	one := sha256.Sum256(b.Bytes())
+	two := sha256.Sum256(one[:])
+	return bitcoin.Hash32(two)
+}
+
 func errorsCause(err error) error {
 	type causer interface{ Cause() error }
 	for err != nil {
@@ -511,8 +526,8 @@ func (h *rcH) step(a rcAct) (res string) {
 		case "badsig":
 			signer = h.otherKey
 		}
-		sh, _ := acc.SigHash(signHash)
-		acc.Signature, _ = signer.Sign(*sh)
+		sh := rcAcceptSigHash(acc, signHash) // computed here, not by the code under test
+		acc.Signature, _ = signer.Sign(sh)
 		if a.Kind == "counts" {
 			acc.MessageCount = 99 // altered after signing
 		}
